@@ -140,6 +140,27 @@ func genC01(r *Rnd, t Tier) *Case {
 			ops = append(ops, Op{Kind: "sleep", Dur: time.Duration(r.Range(1, 60)) * unit})
 		}
 	}
+	// hold permits of a bulkhead in the stack through the standalone API for part of the history
+	for pi, p := range sc.Policies {
+		if p.Kind == KBulkhead && r.P(0.5) {
+			var withHold []Op
+			held := 0
+			for _, op := range ops {
+				if op.Kind == "exec" && r.P(0.5) {
+					if held > 0 && r.P(0.5) {
+						withHold = append(withHold, Op{Kind: "bh.release", Pol: pi})
+						held--
+					} else if held < int(p.MaxConc) {
+						withHold = append(withHold, Op{Kind: "bh.try", Pol: pi})
+						held++
+					}
+				}
+				withHold = append(withHold, op)
+			}
+			ops = withHold
+			break
+		}
+	}
 	sc.Clients = []Client{{Ops: ops}}
 	terminating(sc)
 	return &Case{Sc: sc}
@@ -175,6 +196,7 @@ func checkC01(c *checkCtx) {
 	}
 	checkModels(c, "M.")
 	checkGating(c, "C01.")
+	checkGateState(c, "C01.")
 }
 
 // checkGating: the function runs only inside an innermost probe call, i.e.
